@@ -212,10 +212,11 @@ class Run:
   def __init__(self, spec, spied=False, budget=None, fault=None, marks=None):
     self.spec = spec
     self.spied = spied
-    self.log, self.inv = [], []
+    self.log, self.inv, self.calls_log = [], [], []
     self.marks = marks          # optional shared list for act markers (spy oracle)
     self.gcount = 0
     self.calls = 0
+    self.posts_left = 40        # bounds the fan-out of handler-made posts
     self.budget = budget or (200 * spec['n'] * (2 + max(depth_of(spec['parent'], i) for i in range(spec['n']))) + 2000)
     self.fault = fault          # {'kind':..., 'state': i, ...} for C24
     self.names = spec['names']
@@ -233,27 +234,40 @@ class Run:
   def reset_logs(self):
     del self.log[:]
     del self.inv[:]
+    del self.calls_log[:]
+    self.calls = 0              # the step budget is per step
 
   def do_acts(self, chart, e, acts):
     for a in acts or ():
       k = a[0]
+      if k in ('post_fifo', 'post_lifo', 'defer'):
+        if self.posts_left <= 0:
+          continue
+        self.posts_left -= 1
       if k == 'post_fifo':
         ev = Event(signal=a[1])
         self.log.append(('act', 'post_fifo', a[1]))
         chart.post_fifo(ev)
+        self.calls_log.append(('mark', 'POST_FIFO:' + a[1]))
       elif k == 'post_lifo':
         ev = Event(signal=a[1])
         self.log.append(('act', 'post_lifo', a[1]))
         chart.post_lifo(ev)
+        self.calls_log.append(('mark', 'POST_LIFO:' + a[1]))
       elif k == 'defer':
         self.log.append(('act', 'defer', e.signal_name))
         chart.defer(e)
+        self.calls_log.append(('mark', 'POST_DEFERRED:' + e.signal_name))
       elif k == 'recall':
         r = chart.recall()
         self.log.append(('act', 'recall', None if r is None else r.signal_name))
+        if r is not None:
+          self.calls_log.append(('mark', 'RECALL:' + r.signal_name))
+          self.calls_log.append(('mark', 'POST_FIFO:' + r.signal_name))
       elif k == 'scribble':
         self.log.append(('act', 'scribble', a[1]))
         chart.scribble(a[1])
+        self.calls_log.append(('mark', a[1]))
 
   def _mk(self, i):
     sp = self.spec
@@ -265,9 +279,11 @@ class Run:
     def st(chart, e):
       self.tick()
       sig, sn = e.signal, e.signal_name
+      self.calls_log.append(('call', name, sn))
 
       def ret(status):
         self.inv.append((name, sn, status))
+        self.calls_log.append(('ret', name, sn, status))
         return status
       if fault is not None:
         fk = fault['kind']
